@@ -45,6 +45,7 @@ class wav:
             for ch in (1, 2):
                 for keep in (True, False):
                     yield {"bits": bits, "channels": ch, "keep": keep}
+                    yield {"bits": bits, "channels": ch, "keep": keep, "frames": 0}
 
     @staticmethod
     def check(inp):
@@ -53,6 +54,8 @@ class wav:
         w = bits // 8
         lo, hi = (0, 255) if bits == 8 else (-(1 << (bits - 1)), (1 << (bits - 1)) - 1)
         vals = [lo, hi, 0, 1, -1 if bits > 8 else 127, lo + 1, hi - 1, (lo + hi) // 2, 128 if bits == 8 else -(1 << (bits - 2))]
+        if inp.get("frames") == 0:
+            vals = []           # a file with an empty data chunk: no samples, and the file is closed all the same
         if len(vals) % ch:
             vals.append(0)
         raw = b"".join((v & ((1 << bits) - 1)).to_bytes(w, "little") for v in vals)
